@@ -5,7 +5,8 @@ package stateproof
 // C39 harness: real Falcon / merkle-signature keys (small key lifetimes), random participant
 // sets and signing subsets above / below the proven weight, the real Prover (IsValid, Add,
 // CreateProof) and the real Verifier.Verify on the honest proof and on single-field mutations
-// of it.  Every case records the implementation's observation AND the facts the model needs
+// of it, and on directed forgeries (fully consistent proofs whose revealed slots carry the empty
+// signature).  Every case records the implementation's observation AND the facts the model needs
 // as oracles, computed with the primitives directly (PK.VerifyBytes, ValidateSaltVersion,
 // buildCommittableSignature, VerifyVectorCommitment, makeCoinGenerator), never through
 // Verify / CreateProof.  Case formats: coq/model/StateProofCheck.v.
@@ -245,7 +246,7 @@ func TestVerifC39(t *testing.T) {
 		pools[lt] = vC39Pool(t, lt, poolN)
 	}
 	hf := crypto.HashFactory{HashType: HashType}
-	nProofs, nBelow, nTooMany, nIsValid, nBlocked := 0, 0, 0, 0, 0
+	nProofs, nBelow, nTooMany, nIsValid, nBlocked, nForged := 0, 0, 0, 0, 0, 0
 	partHist := map[int]int{}
 
 	for sc := 0; sc < nScen; sc++ {
@@ -468,6 +469,98 @@ func TestVerifC39(t *testing.T) {
 			obs = vC39Res(cl)
 		}
 		out.o.Case(vSym("prove"), ws, adds, commitoks, allvalid, pw, lnpw, st, coins, obs)
+
+		// ---- directed forgeries: proofs that are consistent in every respect (signature commitment
+		// built over the slots actually used, L = prefix sums, coins -> positions by the real
+		// CreateProof, genuine participant proofs, claimed signed weight above the proven weight)
+		// but in which some or all of the "signing" slots carry the EMPTY signature.  The forger
+		// needs no key.  Every one of them must be rejected.
+		forge := func(label string, fake func(i int) bool, real func(i int) bool) {
+			var claimed uint64
+			for i := range parts {
+				if parts[i].Weight > 0 && (fake(i) || real(i)) {
+					claimed += parts[i].Weight
+				}
+			}
+			if claimed < 2 {
+				return
+			}
+			for _, pwF := range []uint64{claimed / 3, claimed / 2, claimed - 1} {
+				if pwF == 0 {
+					continue
+				}
+				fb, err := MakeProver(data, round, pwF, parts, partTree, st)
+				if err != nil {
+					continue
+				}
+				for i := range parts {
+					if parts[i].Weight == 0 {
+						continue
+					}
+					if real(i) {
+						fb.sigs[i].Weight = parts[i].Weight
+						fb.sigs[i].Sig = vC39CopySig(goodSigs[i])
+					} else if fake(i) {
+						fb.sigs[i].Weight = parts[i].Weight // bookkeeping only; the slot stays empty
+					}
+				}
+				fb.signedWeight = claimed
+				var fsp *StateProof
+				if vC39Safe(func() error {
+					var e error
+					fsp, e = fb.CreateProof()
+					return e
+				}) != nil {
+					continue
+				}
+				empties := 0
+				for _, rv := range fsp.Reveals {
+					if rv.SigSlot.Sig.MsgIsZero() {
+						empties++
+					}
+				}
+				if empties == 0 {
+					continue
+				}
+				nForged++
+				out.verifyCase(label, 0, partcom, pwF, st, round, data, fsp, fsp.SigProofs.TreeDepth,
+					append([]uint64(nil), fsp.PositionsToReveal...))
+				// the same forgery for another message (nobody signed it)
+				if label == "forge_all_empty" {
+					var d2 MessageHash
+					copy(d2[:], r.Bytes(32))
+					fb2, err := MakeProver(d2, round, pwF, parts, partTree, st)
+					if err != nil {
+						continue
+					}
+					for i := range parts {
+						fb2.sigs[i].Weight = parts[i].Weight
+					}
+					fb2.signedWeight = claimed
+					if f2, err := fb2.CreateProof(); err == nil {
+						nForged++
+						out.verifyCase("forge_all_empty_other_msg", 0, partcom, pwF, st, round, d2, f2, f2.SigProofs.TreeDepth,
+							append([]uint64(nil), f2.PositionsToReveal...))
+					}
+				}
+				break
+			}
+		}
+		never := func(int) bool { return false }
+		always := func(int) bool { return true }
+		forge("forge_all_empty", always, never)
+		forge("forge_nonsigners_empty", func(i int) bool { return !signs[i] }, func(i int) bool { return signs[i] && i != evil })
+		firstNon := -1
+		for i := range parts {
+			if !signs[i] && parts[i].Weight > 0 {
+				firstNon = i
+				break
+			}
+		}
+		if firstNon >= 0 {
+			forge("forge_one_empty", func(i int) bool { return i == firstNon }, func(i int) bool { return signs[i] && i != evil })
+		}
+
 		if cerr != nil {
 			continue
 		}
@@ -741,7 +834,7 @@ func TestVerifC39(t *testing.T) {
 	vStats(map[string]interface{}{
 		"scenarios": nScen, "participants_histogram": partHist, "proofs_created": nProofs,
 		"below_threshold": nBelow, "too_many_reveals": nTooMany, "isvalid_cases": nIsValid,
-		"uncommittable_valid_sig_added": nBlocked, "verify_mutations": labels, "verify_panics": out.panics,
+		"uncommittable_valid_sig_added": nBlocked, "forged_empty_signature_proofs": nForged, "verify_mutations": labels, "verify_panics": out.panics,
 	})
 	if out.panics > 0 {
 		t.Errorf("Verifier.Verify panicked in %d cases", out.panics)
